@@ -92,6 +92,134 @@ cmd('AlbumArt', 'AlbumArt', 'albumart', [strarg('self.uri@'), num('self.offset')
 cmd('AlbumArtEmbedded', 'AlbumArtEmbedded', 'readpicture', [strarg('self.uri@'), num('self.offset')], [okstr('self.uri@')], unit=False, private=True)
 
 
+# ---------------------------------------------------------------------------------------------------------------------------------
+# BUILDER TABLE (C15): every constructor / builder method of the predefined commands. Written from the documentation of the
+# builders and the MPD protocol reference: what request the value built this way stands for (`cmd_spec`), whether it can be written
+# (`cmd_ok`), and - for builders that are chained - which parameters of the receiver are kept. Private parameters are named through
+# closed accessor spec fns (ACC below). Not covered (generic `Into<..>` parameters): Queue::song, QueueRange::song, Play::song,
+# Add::at, AddToPlaylist::at - bounded stand-in cmddiff only.
+B = []
+def bld(path, ens, req=(), extra='', mutself=False, props='C15'):
+    B.append(dict(path=path, ens=list(ens), req=list(req), extra=extra, mutself=mutself, props=props))
+def HAS_SP(x): return 'forall|q: usize| q < usize::MAX ==> (#[trigger] %s.has(q) <==> sp_bounds_have(range.spec_start_bound(), range.spec_end_bound(), q))' % x
+def HAS_US(x): return 'forall|q: usize| q < usize::MAX ==> (#[trigger] %s.has(q) <==> bounds_have(range.spec_start_bound(), range.spec_end_bound(), q))' % x
+def HAS_ONE(x, p): return 'forall|q: usize| q < usize::MAX ==> (#[trigger] %s.has(q) <==> q == %s)' % (x, p)
+REL = lambda sign, e: 'vx_spec::tok::sbytes(seq![\'%s\'] + dec_text(%s as nat))' % (sign, e)
+ENC = lambda e: 'vstd::utf8::encode_utf8(%s)' % e
+AOK = lambda e: 'mpd_protocol::command::arg_ok(%s)' % e
+
+bld('Queue::all', ['r.cmd_spec() == %s' % W('playlistinfo')])
+bld('Queue::range', ['r.cmd_spec() == %s' % W('playlistinfo', rng('r.rng()')), HAS_SP('r.rng()')])
+bld('QueueRange::range', ['r.cmd_spec() == %s' % W('playlistinfo', rng('r.rng()')), HAS_SP('r.rng()')])
+bld('Shuffle::all', ['r.cmd_spec() == %s' % W('shuffle')])
+bld('Shuffle::range', ['r.cmd_spec() == %s' % W('shuffle', rng('r.rng()')), HAS_SP('r.rng()')])
+bld('Play::current', ['r.cmd_spec() == %s' % W('play')])
+bld('Add::uri', ['r.cmd_spec() == %s' % W('addid', strarg('uri@')), 'r.cmd_ok() == %s' % okstr('uri@'), 'r.uri_view() == uri@'])
+bld('Add::before_current', ['r.cmd_spec() == %s' % W('addid', strarg('self.uri_view()'), REL('-', 'delta')), 'r.cmd_ok() == self.cmd_ok()', 'r.uri_view() == self.uri_view()'], mutself=True)
+bld('Add::after_current', ['r.cmd_spec() == %s' % W('addid', strarg('self.uri_view()'), REL('+', 'delta')), 'r.cmd_ok() == self.cmd_ok()', 'r.uri_view() == self.uri_view()'], mutself=True)
+bld('Delete::id', ['r.cmd_spec() == %s' % W('deleteid', num('id.0'))])
+bld('Delete::position', ['r.cmd_spec() == %s' % W('delete', rng('r.rng()')), HAS_ONE('r.rng()', 'pos.0')])
+bld('Delete::range', ['r.cmd_spec() == %s' % W('delete', rng('r.rng()')), HAS_SP('r.rng()')])
+bld('Move::id', ['r.from_bytes() == %s' % W('moveid', num('id.0'))])
+bld('Move::position', ['r.from_bytes() == %s' % W('move', rng('r.rng()')), HAS_ONE('r.rng()', 'position.0')])
+bld('Move::range', ['r.from_bytes() == %s' % W('move', rng('r.rng()')), HAS_SP('r.rng()')],
+    req=['[C12.move.range.closed_end|C15] !(range.spec_end_bound() is Unbounded)'], extra='  tokens N10 "range.end_bound()" "vx_end_bound(&range)"')
+bld('MoveBuilder::to_position', ['r.cmd_spec() == self.from_bytes().push(0x20u8) + %s' % num('position.0')])
+bld('MoveBuilder::after_current', ['r.cmd_spec() == self.from_bytes().push(0x20u8) + %s' % REL('+', 'delta')])
+bld('MoveBuilder::before_current', ['r.cmd_spec() == self.from_bytes().push(0x20u8) + %s' % REL('-', 'delta')])
+bld('Find::new', ['r.cmd_spec() == %s' % W('find', 'filter.arg_bytes()'), 'r.cmd_ok() == %s' % AOK('filter.arg_bytes()'), 'r.filter_b() == filter.arg_bytes()', 'r.sort_n() is None', 'r.win() is None'])
+bld('Find::sort', ['r.filter_b() == self.filter_b()', 'r.sort_n() == Some(sort_by.name())', 'r.win() == self.win()'], mutself=True)
+bld('Find::window', ['r.filter_b() == self.filter_b()', 'r.sort_n() == self.sort_n()', 'r.win() is Some', HAS_US('r.win()->0').replace('range.', 'window.')], mutself=True)
+bld('List::new', ['r.cmd_spec() == %s.push(0x20u8) + %s' % (lit('list'), ENC('tag.name()')), 'r.tag_n() == tag.name()', 'r.filter_b() is None', 'r.groups().len() == 0'])
+bld('List::filter', ['r.tag_n() == self.tag_n()', 'r.filter_b() == Some(filter.arg_bytes())', 'r.groups() == self.groups()'], mutself=True)
+bld('List::group_by', ['r.tag_n() == self.tag_n()', 'r.filter_b() == self.filter_b()', 'r.groups() == group_by@'])
+bld('Count::new', ['r.cmd_spec() == %s' % W('count', 'filter.arg_bytes()'), 'r.cmd_ok() == %s' % AOK('filter.arg_bytes()'), 'r.filter_b() == filter.arg_bytes()'])
+bld('Count::group_by', ['r.cmd_spec() == %s' % W('count', 'self.filter_b()', kw('group'), TAGB('group_by')), 'r.cmd_ok() == (self.cmd_ok() && %s)' % AOK(TAGB('group_by'))])
+bld('CountGrouped::new', ['r.cmd_spec() == %s' % W('count', kw('group'), TAGB('group_by')), 'r.tag_n() == group_by.name()'])
+bld('CountGrouped::filter', ['r.cmd_spec() == %s' % W('count', 'filter.arg_bytes()', kw('group'), ENC('self.tag_n()')), 'r.tag_n() == self.tag_n()'], mutself=True)
+bld('RenamePlaylist::new', ['r.cmd_spec() == %s' % W('rename', strarg('from@'), strarg('to@')), 'r.cmd_ok() == (%s && %s)' % (okstr('from@'), okstr('to@'))])
+bld('LoadPlaylist::name', ['r.cmd_spec() == %s' % W('load', strarg('name@')), 'r.cmd_ok() == %s' % okstr('name@'), 'r.name_view() == name@'])
+bld('LoadPlaylist::range', ['r.cmd_spec() == %s' % W('load', strarg('self.name_view()'), rng('r.rng()')), 'r.cmd_ok() == self.cmd_ok()', HAS_US('r.rng()')], mutself=True)
+bld('AddToPlaylist::new', ['r.cmd_spec() == %s' % W('playlistadd', strarg('playlist@'), strarg('song_url@')), 'r.cmd_ok() == (%s && %s)' % (okstr('playlist@'), okstr('song_url@'))])
+bld('RemoveFromPlaylist::position', ['r.cmd_spec() == %s' % W('playlistdelete', strarg('playlist@'), num('position')), 'r.cmd_ok() == %s' % okstr('playlist@')])
+bld('RemoveFromPlaylist::range', ['r.cmd_spec() == %s' % W('playlistdelete', strarg('playlist@'), rng('r.rng()')), 'r.cmd_ok() == %s' % okstr('playlist@'), HAS_SP('r.rng()')])
+bld('MoveInPlaylist::new', ['r.cmd_spec() == %s' % W('playlistmove', strarg('playlist@'), num('from'), num('to')), 'r.cmd_ok() == %s' % okstr('playlist@')])
+bld('ListAllIn::root', ['r.cmd_spec() == %s' % W('listallinfo')], extra='  prologue <<<\n        proof { reveal_strlit(""); }\n  >>>')
+bld('ListAllIn::directory', ['r.cmd_spec() == (if directory@.len() == 0 { %s } else { %s })' % (W('listallinfo'), W('listallinfo', strarg('directory@'))), 'r.cmd_ok() == %s' % okstr('directory@')])
+bld('TagTypes::enable_all', ['r.cmd_spec() == %s' % W('tagtypes', kw('all'))])
+bld('TagTypes::disable_all', ['r.cmd_spec() == %s' % W('tagtypes', kw('clear'))])
+bld('TagTypes::disable', ['r.cmd_spec() == %s + tags_bytes(tags@, 0)' % W('tagtypes', kw('disable')), 'r.cmd_ok() == tags_ok(tags@)'], req=['[C12.tagtypes.disable.nonempty|C15] tags@.len() != 0'])
+bld('TagTypes::enable', ['r.cmd_spec() == %s + tags_bytes(tags@, 0)' % W('tagtypes', kw('enable')), 'r.cmd_ok() == tags_ok(tags@)'], req=['[C12.tagtypes.enable.nonempty|C15] tags@.len() != 0'])
+bld('StickerGet::new', ['r.cmd_spec() == %s' % W('sticker', kw('get'), kw('song'), strarg('uri@'), strarg('name@')), 'r.cmd_ok() == (%s && %s)' % (okstr('uri@'), okstr('name@'))])
+bld('StickerSet::new', ['r.cmd_spec() == %s' % W('sticker', kw('set'), kw('song'), strarg('uri@'), strarg('name@'), strarg('value@')), 'r.cmd_ok() == (%s && %s && %s)' % (okstr('uri@'), okstr('name@'), okstr('value@'))])
+bld('StickerDelete::new', ['r.cmd_spec() == %s' % W('sticker', kw('delete'), kw('song'), strarg('uri@'), strarg('name@')), 'r.cmd_ok() == (%s && %s)' % (okstr('uri@'), okstr('name@'))])
+bld('StickerList::new', ['r.cmd_spec() == %s' % W('sticker', kw('list'), kw('song'), strarg('uri@')), 'r.cmd_ok() == %s' % okstr('uri@')])
+bld('StickerFind::new', ['r.cmd_spec() == %s' % W('sticker', kw('find'), kw('song'), strarg('uri@'), strarg('name@')), 'r.cmd_ok() == (%s && %s)' % (okstr('uri@'), okstr('name@')), 'r.uri_view() == uri@', 'r.name_view() == name@'])
+for f_, op in (('where_eq', '='), ('where_gt', '>'), ('where_lt', '<')):
+    bld('StickerFind::%s' % f_, ['r.cmd_spec() == %s' % W('sticker', kw('find'), kw('song'), strarg('self.uri_view()'), strarg('self.name_view()'), kw(op), strarg('value@')),
+                                  'r.uri_view() == self.uri_view()', 'r.name_view() == self.name_view()'])
+bld('StickerFind::add_filter', ['r.uri_view() == self.uri_view()', 'r.name_view() == self.name_view()', 'r.flt() == Some((operator, value@))'])
+for s_, w in (('Update', 'update'), ('Rescan', 'rescan')):
+    bld('%s::new' % s_, ['r.cmd_spec() == %s' % W(w)])
+    bld('%s::uri' % s_, ['r.cmd_spec() == %s' % W(w, strarg('uri@')), 'r.cmd_ok() == %s' % okstr('uri@')])
+bld('SendChannelMessage::new', ['r.cmd_spec() == %s' % W('sendmessage', strarg('channel@'), strarg('message@')), 'r.cmd_ok() == (%s && %s)' % (okstr('channel@'), okstr('message@'))])
+
+# closed accessor spec fns (the parameters a chained builder keeps; public types only)
+ACC = """
+impl QueueRange { pub closed spec fn rng(&self) -> SongRange { match self.0 { SongOrSongRange::Range(x) => x, _ => arbitrary() } } }
+impl Shuffle { pub closed spec fn rng(&self) -> SongRange { match self.0 { Some(x) => x, _ => arbitrary() } } }
+impl<'a> Add<'a> { pub closed spec fn uri_view(&self) -> Seq<char> { self.uri@ } }
+impl Delete { pub closed spec fn rng(&self) -> SongRange { match self.0 { Target::Range(x) => x, _ => arbitrary() } } }
+impl MoveBuilder {
+    /// [C15 oracle] `moveid ID` / `move START:END`: the request up to the destination argument
+    pub closed spec fn from_bytes(&self) -> Seq<u8> { match self.0 { Target::Id(i) => %(moveid)s, Target::Range(x) => %(move)s } }
+    pub closed spec fn rng(&self) -> SongRange { match self.0 { Target::Range(x) => x, _ => arbitrary() } }
+}
+impl Find {
+    pub closed spec fn filter_b(&self) -> Seq<u8> { self.filter.arg_bytes() }
+    pub closed spec fn sort_n(&self) -> Option<Seq<char>> { match self.sort { Some(t) => Some(t.name()), None => None } }
+    pub closed spec fn win(&self) -> Option<SongRange> { self.window }
+}
+impl<const N: usize> List<N> {
+    pub closed spec fn tag_n(&self) -> Seq<char> { self.tag.name() }
+    pub closed spec fn filter_b(&self) -> Option<Seq<u8>> { match self.filter { Some(f) => Some(f.arg_bytes()), None => None } }
+    pub closed spec fn groups(&self) -> Seq<Tag> { self.group_by@ }
+}
+impl Count { pub closed spec fn filter_b(&self) -> Seq<u8> { self.filter.arg_bytes() } }
+impl CountGrouped { pub closed spec fn tag_n(&self) -> Seq<char> { self.group_by.name() } }
+impl<'a> LoadPlaylist<'a> {
+    pub closed spec fn name_view(&self) -> Seq<char> { self.name@ }
+    pub closed spec fn rng(&self) -> SongRange { match self.range { Some(x) => x, _ => arbitrary() } }
+}
+impl<'a> RemoveFromPlaylist<'a> { pub closed spec fn rng(&self) -> SongRange { match self.target { PositionOrRange::Range(x) => x, _ => arbitrary() } } }
+impl<'a> StickerFind<'a> {
+    pub closed spec fn uri_view(&self) -> Seq<char> { self.uri@ }
+    pub closed spec fn name_view(&self) -> Seq<char> { self.name@ }
+    pub closed spec fn flt(&self) -> Option<(StickerFindOperator, Seq<char>)> { match self.filter { Some((o, v)) => Some((o, v@)), None => None } }
+}
+""" % dict(moveid=W('moveid', num('i.0')), move=W('move', rng('x')))
+
+def builders_text():
+    out = []
+    for b in B:
+        out.append('lift fn %s' % b['path'])
+        out.append('  props %s\n  implicit C12\n  ret r' % b['props'])
+        if b['mutself']: out.append('  mutself')
+        if b['extra']: out.append(b['extra'].rstrip('\n'))
+        name = b['path'].replace('::', '.').lower()
+        out.append('  spec <<<')
+        if b['req']:
+            out.append('        requires')
+            for q in b['req']: out.append('            %s,' % q)
+        out.append('        ensures')
+        for i, e in enumerate(b['ens']):
+            out.append('            [C15.builder.%s.%d] %s,' % (name, i, e))
+        out.append('  >>>')
+        if not ('prologue' in b['extra']):
+            out.append('  prologue <<<\n        proof { lemma_command_words(); lemma_keywords(); }\n  >>>')
+        out.append('')
+    return out
+
 def name_lemma(words):
     """proof that every literal command word is a name the builder accepts (letters / '_', first a letter, not a command_list word)"""
     body = ['    reveal_strlit("command_list");']
@@ -152,7 +280,9 @@ def main():
             out.append('lift fn "<%s as Command>::response"' % k)
             out.append('  props\n  implicit\n  attr <<<\n    #[verifier::external_body]\n  >>>')
         out.append('')
-    out.append('append <<<\n' + name_lemma(words) + kw_lemma(KW) + '''/// a duration text can always be written as an argument (digits and a dot)
+    out.append('lift item struct MoveBuilder')
+    out.extend(builders_text())
+    out.append('append <<<\n' + ACC + name_lemma(words) + kw_lemma(KW) + '''/// a duration text can always be written as an argument (digits and a dot)
 pub broadcast proof fn lemma_dur_arg_ok(x: std::time::Duration)
     ensures #[trigger] mpd_protocol::command::arg_ok(vx_spec::tok::sbytes(dur_arg_text(x)))
 {
